@@ -194,3 +194,11 @@ for _b in _CLOSURE_BLOCKS:
       native=None, min_obligations=30,
       assumptions=[NOFAIL, "T (line kinds a text-carrying block can contain) is transcribed from parser.y: chunk/nested_chunk/tail rules plus the %fallback chains onto LINE_CONTINUATION",
                    "the writers' LINE_* arms (LINE_LIST_BULLETED, LINE_LIST_ENUMERATED, LINE_SETEXT_2, LINE_FENCE_BACKTICK_3..5) are hand-listed from html.c/latex.c/opendocument-content.c"])
+
+U("c02_closure_deflist", ["C02"], "h_deflist", ["C02/deflist.c"], ["mmd.c"], plain=True, lib=(), kind="bounded", drop_bodies=["strip_line_tokens_from_block"],
+  defines=["-DALL_LINE_TYPES=" + ",".join(_ALL_LINES)],
+  bounds={"children of the definition list": "1..3", "child kinds": "every LINE_* type of the headers + BLOCK_TERM + BLOCK_DEFINITION, enumerated concretely"},
+  cbmc_flags=["--unwind", "%d" % (len(_ALL_LINES) + 4), "--unwinding-assertions", "--object-bits", "12"], timeout=600, cost=30,
+  functions=["strip_line_tokens_from_deflist"], callees={"strip_line_tokens_from_block": "contract stub (its closure: c02_closure_definition)"}, native=None, min_obligations=10,
+  assumptions=[NOFAIL])
+
